@@ -32,7 +32,9 @@ def main():
         })
     man = {
         "version": 1,
-        "setup_cmd": "/venv/bin/python harness/regen.py && cd lean && lake build",
+        "setup_cmd": "/venv/bin/python harness/regen.py && cd lean && lake build " + " ".join(
+            [f"QG.Props.{p}" for p in sorted(CHECKS)] +
+            [f"drv_{p.lower()}" for p in sorted(CHECKS) if os.path.exists(os.path.join(HERE, "lean", "QG", "Driver", p + ".lean"))]),
         "hooks": {
             "guard": "QUANTUM_GATES_VERIF",
             "enable": "no source hooks are needed: the checks observe the code from outside (injected gate sets, monkey-patched "
